@@ -332,6 +332,76 @@ def fm2(first=_SHARED_DEFAULT, second=_SHARED_DEFAULT):
   return l2._rec("fm2", locals())  # pylint: disable=protected-access
 
 
+def _vrecord(a, b=2, *rest, scale=1.0):
+  return ("vrecord", a, b, rest, scale)
+
+
+def _vposonly(a=0, b=2, /, c=3, *rest):
+  return ("vposonly", a, b, c, rest)
+
+
+def varargs_after_default_case(rng, res, label):
+  """*args values are configured while a defaulted positional parameter before them is explicitly set to its
+  default (trimming unsets it) or unset (materializing sets it): what is built must not change - the unset
+  parameter is filled with its default exactly once, the variadic values stay variadic."""
+  n_rest = rng.randint(1, 4)
+  rest = [rng.choice([30, 40, "v", None, 2, 3]) for _ in range(n_rest)]
+  kind = rng.choice([fdl.Config, fdl.Partial])
+  which = rng.randrange(3)
+  if which == 0:
+    cfg = kind(_vrecord, 1, 2, *rest)                   # b explicitly its default
+  elif which == 1:
+    cfg = kind(_vposonly, 0, 2, 3, *rest)               # a, b, c explicitly their defaults
+  else:
+    cfg = kind(_vposonly, 5, 2, 7, *rest)               # only b equals its default (a gap after trimming)
+  root = rng.choice([lambda: cfg, lambda: [cfg, 1], lambda: fdl.Config(l2.fd, x=cfg, y=[cfg])])()
+  def built(c):
+    out = fdl.build(c)
+    def call(x):
+      if isinstance(x, functools.partial):
+        return ("partial", x())
+      if isinstance(x, list):
+        return [call(y) for y in x]
+      if isinstance(x, l2.Recorded):
+        return {k: call(v) for k, v in x.view.items()} if hasattr(x, "view") else repr(x)
+      if isinstance(x, dict):
+        return {k: call(v) for k, v in x.items()}
+      return x
+    return call(out)
+  replay = {"label": label, "root": repr(root)[:600]}
+  try:
+    want = built(root)
+  except Exception as e:  # pylint: disable=broad-except
+    res.failures.append(Failure(None, f"C20 {label}: the input does not build: {type(e).__name__}: {e}", replay))
+    return
+  for name in ("with_defaults_trimmed", "materialize_defaults", "trim-then-materialize"):
+    res.evaluations += 1
+    res.count("varargs-after-default:" + name)
+    work = copy.deepcopy(root)
+    try:
+      if name == "with_defaults_trimmed":
+        out = visualize.with_defaults_trimmed(work)
+      elif name == "materialize_defaults":
+        materialize.materialize_defaults(work)
+        out = work
+      else:
+        out = visualize.with_defaults_trimmed(work)
+        materialize.materialize_defaults(out)
+      got = built(out)
+    except Exception as e:  # pylint: disable=broad-except
+      res.failures.append(Failure(None, f"C20 {label}: {name} on *args after a defaulted parameter raised "
+                                  f"{type(e).__name__}: {e}", replay))
+      return
+    if repr(got) != repr(want):
+      res.failures.append(Failure(None, f"C20 {label}: {name} changed what is built when *args values follow a "
+                                  f"defaulted positional parameter: {repr(got)[:160]} instead of {repr(want)[:160]}",
+                                  replay))
+      return
+    if not (out == root):
+      res.failures.append(Failure(None, f"C20 {label}: {name} result is not == to the original", replay))
+      return
+
+
 def mutable_default_case(rng, res, label):
   """An argument explicitly set to a value EQUAL to a mutable default, where that value object is also
   referenced elsewhere in the configuration (or not): trimming / materializing must keep the built
@@ -512,6 +582,7 @@ def run(tier: str, seed: int) -> Result:
     one_case(rng, res, intern, stream, root, name, f"cfg#{i}")
   for i in range(40 if tier == "quick" else 1000):
     mutable_default_case(rng, res, f"mutdef#{i}")
+    varargs_after_default_case(rng, res, f"vargs#{i}")
   for _ in range(2 if tier == "quick" else 20):
     special_default_cases(rng, res)
   for i in range(20 if tier == "quick" else 300):
